@@ -15,8 +15,13 @@ META = dict(
                "plain filter for distance-independent conditions (C18_ifilter_const). Query level: C18_search_elements_plain (no limit/offset/order), "
                "C18_elements_search_limit_offset + C18_search_elements_unordered (streamed limit/offset handlers = slice of the filtered list, limit/offset >= 0 "
                "as u64), C18_search_elements_ordered (order_by: stable sort then SearchQuery::slice) and C18_slice_ids_is_zslice (with the slice-clamp fix both "
-               "slices coincide). C18_nonvacuous: a concrete history with removal and slot reuse. The statements that `elements g` itself lists exactly the existing "
-               "nodes and edges once, in increasing |id|, never a freed slot, on every reachable graph are the GRAPH PART of Props/C18.v (theories/GraphProofs.v). "
+               "slices coincide). C18_nonvacuous: a concrete history with removal and slot reuse. GRAPH PART (all full, for every graph value): the iteration "
+               "`elements g` (model of GraphIterator/next_element) lists exactly the existing elements with the sign of their kind (C18_elements_exact: In i <-> "
+               "graph_index g i), in strictly increasing |id| (C18_elements_sorted, C18_elements_order), each at exactly one position (C18_elements_nodup, "
+               "C18_elements_once), never a freed slot / slot 0 / a slot beyond the arrays (C18_elements_not_freed); on every graph reachable by a history of "
+               "insertions and removals it is exactly the abstract nodes and edge ids of C08 (C18_elements_abstract with C08_history_refines); combined: "
+               "C18_elements_search_result (element i at position n is returned iff accepted at distance n; result is an order-preserving selection, strictly "
+               "increasing in |id|, duplicate-free, existing elements only) and C18_elements_search_existing (any handler: never a non-existing, e.g. removed, id). "
                "The model is tied to /repo on every run by executing generated histories (inserts, removals with id reuse, then searches of all algorithms incl. "
                "elements searches with conditions, limits, offsets and order_by) on the real database and on the extracted model and comparing every result.",
     design_ref="DESIGN.md §5 C18",
